@@ -6,6 +6,39 @@ STREAM_SCHEDS = ["reply-first", "cancel-before-write", "deadline-before-write", 
                  "retry-after-write-error", "cancel-before-write-overlap"]
 PIPE_SCHEDS = ["reply", "dup-reply", "late-reply"]
 DOH_SCHEDS = ["reply-first", "cancel-during-dial", "deadline-during-dial", "cancel-during-dial-overlap", "cancel-during-read"]
+# round 4: fault paths (stream reads that end inside a frame, a failing TCP leg of the UDP fallback), the hand-over of the
+# reply against the caller's cancellation, header-only replies; replayed with the buffer hook AND the object hook on
+RDFAULT_SCHEDS = ["complete", "eof-before-frame", "short-prefix", "short-body", "reset-mid-body", "short-body-overlap"]
+LISTEN_SCHEDS = ["short-body", "reset-mid-body", "short-prefix", "eof-before-frame"]
+FALLBACK_SCHEDS = ["plain", "tc-tcp-ok", "tc-tcp-close", "tc-tcp-refused", "tc-tcp-short", "tc-tcp-garbage",
+                   "tc-tcp-close-overlap", "udp-timeout"]
+HANDOVER_SCHEDS = ["reply-no-cancel", "cancel-after-reply", "deadline-after-reply", "cancel-before-reply"]
+EMPTYRESP_SCHEDS = ["no-rd", "opcode", "qr-set", "qdcount2", "qdcount0"]
+
+
+def fault_cases(rng, reps, start, race=False):
+    out = []
+    n = start
+    tail = " race=1" if race else ""
+
+    def add(txt):
+        nonlocal n
+        out.append("%s%d %s mode=poison seed=%d%s" % ("r" if race else "f", n, txt, rng.randrange(1 << 30), tail))
+        n += 1
+    for rep in range(reps):
+        for tr in ("reuse", "pipeline", "quic"):
+            for sched in RDFAULT_SCHEDS:
+                add("sc=rdfault tr=%s sched=%s" % (tr, sched))
+        for sched in FALLBACK_SCHEDS:
+            add("sc=fallback sched=%s" % sched)
+        for sched in HANDOVER_SCHEDS:
+            add("sc=handover sched=%s" % sched)
+    # the scenarios that start the in-process router: once per schedule (each runs every listener twice)
+    for sched in LISTEN_SCHEDS:
+        add("sc=listen sched=%s" % sched)
+    for sched in EMPTYRESP_SCHEDS:
+        add("sc=emptyresp sched=%s" % sched)
+    return out
 
 
 def ownership_gen(rng, tier):
@@ -38,7 +71,11 @@ def ownership_gen(rng, tier):
                 for mode in modes:
                     out.append("o%d sc=%s sched=%s mode=%s seed=%d" % (n, sc, sched, mode, rng.randrange(1 << 30)))
                     n += 1
+    out += fault_cases(rng, budget(tier, 2, 12), n)
+    n = len(out)
     if tier == "thorough":
+        out += fault_cases(rng, 2, n, race=True)
+        n = len(out)
         for sc in ("doh", "doh2"):
             for sched in DOH_SCHEDS:
                 out.append("r%d sc=%s sched=%s mode=poison seed=%d race=1" % (n, sc, sched, rng.randrange(1 << 30)))
@@ -72,8 +109,18 @@ def ownership_oracle(line, res):
     if any(w in ("poison", "foreign", "other") for w in wires):
         why.append("octets sent to the upstream are not the caller's own query (wire=%s): "
                    "a buffer was used after its release" % r.get("wire"))
-    if "damaged-reply" in r.get("ret", ""):
+    ret = r.get("ret", "")
+    if "damaged-reply" in ret:
         why.append("a delivered reply message was released/recycled while the caller still used it")
+    if "returned-released" in ret or "nil-nil" in ret:
+        why.append("an exchange returned (with a nil error) a message that had already been released")
+    if "released-while-held" in ret:
+        why.append("a message was released by somebody else while its owner (the caller it was returned to) held it")
+    if "same-object-twice" in ret:
+        why.append("one message object was handed to two owners")
+    if any(t.endswith((":poison", ":bad-response", ":undecodable")) for t in ret.split(",")):
+        why.append("a client of the router received poison / a response that is not the answer to its own query (%s)"
+                   % ",".join(t for t in ret.split(",") if t.endswith((":poison", ":bad-response", ":undecodable"))))
     if r.get("ev", "-") != "-":
         why.append("pool hook events: " + r["ev"])
     rr = _race_reason(r)
@@ -93,6 +140,10 @@ def ownership_compare(ir, mr):
 
 def ownership_classify(line, res):
     f = gens.fields(line)
+    if "tr" in f:
+        return "%s-%s/%s/%s/%s" % (f.get("sc"), f.get("tr"), f.get("sched"), f.get("mode"), gens.fields(res).get("viol", "?"))
+    if f.get("sc") in ("listen", "fallback", "handover", "emptyresp"):
+        return "%s/%s/%s/%s" % (f.get("sc"), f.get("sched"), f.get("mode"), gens.fields(res).get("viol", "?"))
     return "%s/%s/%s/%s" % (f.get("sc"), f.get("sched"), f.get("mode"), gens.fields(res).get("wire", "?"))
 
 
